@@ -357,7 +357,9 @@ func c19Matrix(f func(admitted, fallback bool, handler string)) {
 }
 
 var c19Bools = []bool{true, false}
-var c19Handlers = []string{"ok", "err", "panic"}
+// "errtyped": the handler fails with the framework's own error type carrying a client-error status (where the
+// framework has one; elsewhere it is a second plain failure)
+var c19Handlers = []string{"ok", "err", "panic", "errtyped"}
 
 func c19Name(ep string, admitted, fallback bool, handler string) string {
 	if c19PairTag != "" {
@@ -408,7 +410,7 @@ func c19GinCase(t *testing.T, admitted, fallback bool, handler string) {
 		switch handler {
 		case "ok":
 			ctx.String(http.StatusOK, "ok")
-		case "err":
+		case "err", "errtyped":
 			_ = ctx.Error(errors.New("c19 handler error"))
 			ctx.String(http.StatusInternalServerError, "err")
 		case "panic":
